@@ -70,8 +70,10 @@ def orig_tok(i, p, rng=None):
     return (p[0], p[1], i + 1, 7 * i + 2, src, name, r)
 
 
-def adj_tok(src, dst):
-    return (dst[0], dst[1], src[0], src[1], 0, NONE, 0)
+def adj_tok(src, dst, sourceless=False):
+    # a source-less adjustment token is an adjustment token like any other: its original position bounds the stretch of
+    # the token before it and its own stretch is moved by its own displacement
+    return (dst[0], dst[1], src[0], src[1], NONE if sourceless else 0, NONE, 0)
 
 
 def case(o, a):
@@ -207,7 +209,10 @@ def rand_case(rng, hist, big=False):
             adst = rand_positions(rng, len(asrc), lines + 2, cols + 10, 0.1)
             bump(hist, "arbitrary_adjustment")
     o = [orig_tok(i, p, rng) for i, p in enumerate(ops)]
-    a = [adj_tok(s, d) for s, d in zip(asrc, adst)]
+    sl = rng.chance(0.25)
+    a = [adj_tok(s, d, sourceless=(sl and rng.chance(0.4))) for s, d in zip(asrc, adst)]
+    if sl:
+        bump(hist, "adjustment_with_sourceless_tokens")
     rng.shuffle(a)
     # sort_unstable is only modelled for <= 20 elements or already ordered input when keys tie
     if len(o) > 20 and has_dup(ops):
